@@ -150,3 +150,18 @@ def _from_module(pid):
 
 _m = _from_module("C03")
 check(_m["id"], _m["category"], _m["text"], _m["note"], _m["technique"], _m["design_ref"])
+
+HOOK_COMMITS += ["952255ae"]
+
+check("C16", "model_checking",
+      "Lottery.tla states the lottery as a RELATION (admissible outcomes: indices in range or none when the shard has no flips, no "
+      "flip twice in a list, short quota, long list non-empty with the single-placeholder rule, symmetric author / candidate maps, "
+      "every non-placeholder flip authored by one of the candidate's authors, package index defined iff recipient, determinism); TLC "
+      "checks satisfiability and end-to-end key reach on every layout of 0..5 (quick) / 0..6 (thorough) candidates, any author subset, "
+      "1..3 flips per author, and exports the layouts; the REAL GetAuthorsDistribution / GetFlipsDistribution / "
+      "calculateCeremonyCandidates run on each layout x seeds x quotas (alone and inside a two-shard call) and on seeded larger layouts "
+      "(7..600 candidates hitting the fallback paths), real key packages go through the real KeysPool and every candidate tries every "
+      "flip; TLC validates the recorded outputs against the relation.",
+      "the Go PRNG and queue rotation are not modelled (any admissible outcome is accepted); fairness of the distribution and "
+      "qualifyFlips are outside; one recorded known finding (package over the size limit for few authors / many candidates)",
+      "TLA+ relation over all small layouts + real lottery and key packages on each + TLC trace validation", "DESIGN.md#c16")
